@@ -1,14 +1,16 @@
 package main
 
 import (
-	"sync"
 	"fmt"
 	"go/token"
 	"go/types"
+	"golang.org/x/tools/go/callgraph"
+	"golang.org/x/tools/go/callgraph/cha"
 	"os"
 	"sort"
 	"strconv"
 	"strings"
+	"sync"
 
 	"golang.org/x/tools/go/packages"
 	"golang.org/x/tools/go/ssa"
@@ -16,10 +18,13 @@ import (
 )
 
 type World struct {
-	osigs map[string]*types.Signature
-	Thorough bool // thorough tier: consistency obligations for the zero-annotation sweeps too
-	lines map[string][]string
-	reachCache map[[2]*ssa.Function]bool
+	fieldWriters   map[string]map[*ssa.Function]bool // in-repo functions storing to a field of an existing (non-fresh) object
+	chaG           *callgraph.Graph
+	chaReachC      map[*ssa.Function]map[*ssa.Function]bool
+	osigs          map[string]*types.Signature
+	Thorough       bool // thorough tier: consistency obligations for the zero-annotation sweeps too
+	lines          map[string][]string
+	reachCache     map[[2]*ssa.Function]bool
 	repo           string
 	fset           *token.FileSet
 	pkgs           []*packages.Package
@@ -541,6 +546,7 @@ func (w *World) immutableFieldComp(comp string) bool {
 							pt := cur.X.Type().Underlying().(*types.Pointer).Elem()
 							u := pt.Underlying().(*types.Struct)
 							w.mutFields["F:"+typeKey(pt)+"."+u.Field(cur.Field).Name()] = true
+							w.addWriter("F:"+typeKey(pt)+"."+u.Field(cur.Field).Name(), fn)
 							inner, ok := cur.X.(*ssa.FieldAddr)
 							if !ok {
 								break
@@ -550,6 +556,11 @@ func (w *World) immutableFieldComp(comp string) bool {
 					default:
 						if pt, ok := st.Addr.Type().Underlying().(*types.Pointer); ok {
 							markAll(pt.Elem())
+							if u, ok := pt.Elem().Underlying().(*types.Struct); ok {
+								for i := 0; i < u.NumFields(); i++ {
+									w.addWriter("F:"+typeKey(pt.Elem())+"."+u.Field(i).Name(), fn)
+								}
+							}
 							// a store through a plain pointer value: the cell heap of that type is mutable
 							w.mutFields["C:"+typeKey(pt.Elem())] = true
 							if os.Getenv("GOVC_DEBUG_MUT") != "" {
@@ -1151,4 +1162,88 @@ func (w *World) originSig(key string) *types.Signature {
 		}
 	}
 	return w.osigs[key]
+}
+
+func (w *World) addWriter(comp string, fn *ssa.Function) {
+	if w.fieldWriters == nil {
+		w.fieldWriters = map[string]map[*ssa.Function]bool{}
+	}
+	if w.fieldWriters[comp] == nil {
+		w.fieldWriters[comp] = map[*ssa.Function]bool{}
+	}
+	w.fieldWriters[comp][fn] = true
+}
+
+// chaReach: every function reachable from fn in the class-hierarchy call graph of the whole
+// program (static calls; interface calls to every method of every type implementing the
+// interface; calls of function values to every address-taken function of that signature).
+func (w *World) chaReach(fn *ssa.Function) map[*ssa.Function]bool {
+	w.mu.Lock()
+	defer w.mu.Unlock()
+	if w.chaG == nil {
+		w.chaG = cha.CallGraph(w.prog)
+		w.chaReachC = map[*ssa.Function]map[*ssa.Function]bool{}
+	}
+	if r, ok := w.chaReachC[fn]; ok {
+		return r
+	}
+	seen := map[*ssa.Function]bool{}
+	var stack []*callgraph.Node
+	if n := w.chaG.Nodes[fn]; n != nil {
+		stack = append(stack, n)
+		seen[fn] = true
+	}
+	for len(stack) > 0 {
+		n := stack[len(stack)-1]
+		stack = stack[:len(stack)-1]
+		for _, ed := range n.Out {
+			if c := ed.Callee; c != nil && c.Func != nil && !seen[c.Func] {
+				seen[c.Func] = true
+				stack = append(stack, c)
+			}
+		}
+		// closures created by the function may be called later by anyone it hands them to
+		if n.Func != nil {
+			for _, af := range n.Func.AnonFuncs {
+				if !seen[af] {
+					seen[af] = true
+					if an := w.chaG.Nodes[af]; an != nil {
+						stack = append(stack, an)
+					}
+				}
+			}
+		}
+	}
+	w.chaReachC[fn] = seen
+	return seen
+}
+
+// keptAcrossCall: an unexported field of an in-repo struct keeps its value across a call of fn when
+// none of the functions that store to it (whole-program scan) is reachable from fn. Code outside
+// the repository cannot name the field; reflection/unsafe writes are outside the model (assumption).
+func (w *World) keptAcrossCall(comp string, fn *ssa.Function) bool {
+	if fn == nil || !strings.HasPrefix(comp, "F:"+modulePath) {
+		return false
+	}
+	if i := strings.LastIndex(comp, "."); i >= 0 && i+1 < len(comp) {
+		if c := comp[i+1]; c >= 'A' && c <= 'Z' {
+			return false
+		}
+	}
+	w.immutableFieldComp(comp) // make sure the store scan has run
+	writers := w.fieldWriters[comp]
+	if len(writers) == 0 {
+		return true
+	}
+	reach := w.chaReach(fn)
+	for wf := range writers {
+		if reach[wf] {
+			return false
+		}
+		// a closure's stores happen when the closure runs: reachable if the closure is
+		for p := wf.Parent(); p != nil; p = p.Parent() {
+			_ = p
+		}
+	}
+	return true
 }
